@@ -242,9 +242,10 @@ func runC08(c *Ctx) {
 				if len(ret.Results) != 1 {
 					continue
 				}
-				if isBoolConst(gi, ret.Results[0], true) {
+				if !isBoolConst(gi, ret.Results[0], false) {
+					// `true`, or anything that may be true
 					okT := len(stores) == 1 && gcf.Dominates(gcf.LocOf(stores[0]), gcf.LocOf(ret))
-					c.Check(K(g.Name, "return true"), ret.Pos(), okT, "the gate reports acceptance only after recording the provider", "`return true` reachable without the store")
+					c.Check(K(g.Name, "return "+short(ret.Results[0])), ret.Pos(), okT, "the gate reports acceptance only after recording the provider (an accepted but unrecorded provider is yielded again by the next answer naming it)", "a return that may be true is reachable without the store")
 				}
 			}
 			// size reader under the lock
@@ -372,39 +373,7 @@ func runC08(c *Ctx) {
 	c.Check("provider sends", 0, sends >= 2, "provider sends (local+remote, both clients) exist", "found "+itoa(sends))
 	// the public entry points close the channel on the early branch and otherwise start the routine
 	c.Rule("R6")
-	for _, fn := range []string{"(*dht.IpfsDHT).FindProvidersAsync", "(*dht/fullrt.FullRT).FindProvidersAsync"} {
-		f := c.Fn(fn)
-		cf := f.CFG()
-		info := f.Info()
-		nret := 0
-		for _, ret := range cf.Returns() {
-			if len(ret.Results) != 1 {
-				continue
-			}
-			out := eng.ObjOf(info, ret.Results[0])
-			if out == nil {
-				continue
-			}
-			nret++
-			var via []eng.Loc
-			f.Walk(func(n ast.Node) bool {
-				switch x := n.(type) {
-				case *ast.GoStmt:
-					if len(x.Call.Args) >= 1 && eng.IsObj(info, x.Call.Args[len(x.Call.Args)-1], out) {
-						via = append(via, cf.LocOf(x))
-					}
-				case *ast.CallExpr:
-					if eng.NameIn(eng.CalleeName(info, x), "builtin.close") && eng.IsObj(info, x.Args[0], out) {
-						via = append(via, cf.LocOf(x))
-					}
-				}
-				return true
-			})
-			ok, w := cf.MustPass(cf.Entry(), eng.LocSet(cf.LocOf(ret)), eng.LocSet(via...))
-			c.CheckW(K(f.Name, "channel always owned#"+itoa(nret)), ret.Pos(), ok, "the returned channel is either closed at once or handed to the routine that closes it", "a return is reachable with the channel neither closed nor owned", cf.DescribePath(w))
-		}
-		c.Check(K(f.Name, "returns channel"), f.Pos(), nret >= 1, "FindProvidersAsync returns a channel variable", "none found")
-	}
+	c08EntryOwnsChannel(c)
 
 	// R3 (cont.) the lookup's follow-up stage honours the stop function
 	c.Rule("R3")
@@ -468,6 +437,36 @@ func c08Dual(c *Ctx) {
 			return foundMap != nil
 		})
 		c.Check(K(g.Name, "yield only unseen"), s.Send.Pos(), okNew, "a provider is yielded at most once", "send not guarded by absence from the found set")
+		// what is yielded was received from an inner search in this very iteration: within one
+		// iteration the send is unreachable without a receive from a provider channel (an
+		// event arm, or a closed-channel arm, must go back to the loop head)
+		{
+			var provArms, heads []eng.Loc
+			var sendVal = rootObj(gi, s.Send.Value)
+			for _, sel := range g.Selects() {
+				for _, sc := range eng.SelectCases(gi, sel) {
+					as, isAs := sc.Clause.Comm.(*ast.AssignStmt)
+					if sc.Kind != "recv" || !isAs || len(as.Lhs) == 0 {
+						continue
+					}
+					if tv, ok := gi.Types[sc.Chan]; ok && eng.TypeKey(tv.Type) == "<-chan github.com/libp2p/go-libp2p/core/peer.AddrInfo" && rootObj(gi, as.Lhs[0]) == sendVal {
+						provArms = append(provArms, gcf.LocOf(sc.Clause.Comm))
+					}
+				}
+			}
+			heads = loopHeads(gcf, p, s.Send)
+			okFrom := len(provArms) == 2 && len(heads) >= 1
+			var wit []eng.Loc
+			if okFrom {
+				for _, h := range heads {
+					r, w := gcf.Reach(h, eng.LocSet(loc), eng.ReachOpt{CutLoc: eng.LocSet(provArms...)})
+					if r {
+						okFrom, wit = false, w
+					}
+				}
+			}
+			c.CheckW(K(g.Name, "yields only what an inner search sent"), s.Send.Pos(), okFrom, "within one iteration the merger yields only a value it has just received from the WAN or the LAN search", "the send is reachable in an iteration that received no provider (e.g. from the event arm)", gcf.DescribePath(wit))
+		}
 		at := func(leaf ast.Expr) (string, bool, bool) {
 			if eng.IsObj(gi, leaf, zero) {
 				return "zeroCount", true, true
@@ -539,5 +538,64 @@ func c08Dual(c *Ctx) {
 			return true
 		})
 		c.Check(K(f.Name, name+" searched"), f.Pos(), n == 1, "the "+name+" DHT is searched", "found "+itoa(n)+" calls")
+	}
+}
+
+// c08EntryOwnsChannel: FindProvidersAsync closes the channel it returns on the early branch
+// and otherwise hands it to the routine that closes it.
+func c08EntryOwnsChannel(c *Ctx) {
+	for _, fn := range []string{"(*dht.IpfsDHT).FindProvidersAsync", "(*dht/fullrt.FullRT).FindProvidersAsync"} {
+		f := c.Fn(fn)
+		cf := f.CFG()
+		info := f.Info()
+		nret := 0
+		for _, ret := range cf.Returns() {
+			if len(ret.Results) != 1 {
+				continue
+			}
+			out := eng.ObjOf(info, ret.Results[0])
+			if out == nil {
+				continue
+			}
+			nret++
+			var via []eng.Loc
+			f.Walk(func(n ast.Node) bool {
+				switch x := n.(type) {
+				case *ast.GoStmt:
+					if len(x.Call.Args) >= 1 && eng.IsObj(info, x.Call.Args[len(x.Call.Args)-1], out) {
+						via = append(via, cf.LocOf(x))
+					}
+				case *ast.CallExpr:
+					if eng.NameIn(eng.CalleeName(info, x), "builtin.close") && eng.IsObj(info, x.Args[0], out) {
+						via = append(via, cf.LocOf(x))
+					}
+				}
+				return true
+			})
+			ok, w := cf.MustPass(cf.Entry(), eng.LocSet(cf.LocOf(ret)), eng.LocSet(via...))
+			c.CheckW(K(f.Name, "channel always owned#"+itoa(nret)), ret.Pos(), ok, "the returned channel is either closed at once or handed to the routine that closes it", "a return is reachable with the channel neither closed nor owned", cf.DescribePath(w))
+		}
+		c.Check(K(f.Name, "returns channel"), f.Pos(), nret >= 1, "FindProvidersAsync returns a channel variable", "none found")
+	}
+}
+
+// c08RoutineClosesChannel: the provider search routine of both clients closes its result
+// channel by a defer registered before any exit (shared with C03.R4).
+func c08RoutineClosesChannel(c *Ctx) {
+	for _, fn := range []string{"(*dht.IpfsDHT).findProvidersAsyncRoutine", "(*dht/fullrt.FullRT).findProvidersAsyncRoutine"} {
+		f := c.Fn(fn)
+		info := f.Info()
+		cf := f.CFG()
+		peerOut := paramObj(f, "peerOut")
+		c.Anchor(peerOut != nil, "%s: result channel parameter not found", fn)
+		var defs []eng.Loc
+		f.Walk(func(n ast.Node) bool {
+			if d, ok := n.(*ast.DeferStmt); ok && eng.NameIn(eng.CalleeName(info, d.Call), "builtin.close") && eng.IsObj(info, d.Call.Args[0], peerOut) {
+				defs = append(defs, cf.LocOf(d))
+			}
+			return true
+		})
+		ok, w := cf.MustPass(cf.Entry(), eng.LocSet(cf.Exits(false)...), eng.LocSet(defs...))
+		c.CheckW(K(f.Name, "defer close(peerOut)"), f.Pos(), ok && len(defs) == 1, "the result channel is closed on every exit of the routine", "an exit is reachable before the deferred close is registered", cf.DescribePath(w))
 	}
 }
